@@ -19,6 +19,7 @@ From Astisub Require Import Kit.Base Kit.Str Model.Files Model.Ops Model.Srt Mod
 From Astisub Require Import Proofs.SrtProofs Proofs.VttDoc Proofs.ConvProofs Proofs.ConvOpsProofs Proofs.PlainProofs Proofs.PlainOpsProofs.
 From Astisub Require Import Model.PlainSsa Proofs.PlainSsaProofs.
 From Astisub Require Import Model.Stl Model.PlainStl Proofs.PlainStlProofs.
+From Astisub Require Import Model.PlainTtml Proofs.PlainTtmlProofs.
 Import ListNotations.
 
 (* SubRip file -> WebVTT file: cues, order, times to the millisecond, text per line *)
@@ -124,6 +125,10 @@ Proof. exact stl_plain_faithful. Qed.
 Print Assumptions C07_stl_plain_faithful.
 Example C07_stl_plain_example : stl_plain_ok ex_plain_stl.
 Proof. exact ex_plain_stl_ok. Qed.
+(* TTML at byte level: the writer's bytes (default indent), the XML parser model, the tree reader *)
+Theorem C07_ttml_plain_faithful : plain_faithful 1000000 ttml_plain_ok ttml_enc ttml_dec.
+Proof. exact ttml_plain_faithful. Qed.
+Print Assumptions C07_ttml_plain_faithful.
 Example C07_plain_example : srt_plain_ok ex_plain /\ vtt_plain_ok (ptrunc 1000000 ex_plain).
 Proof. split; [exact ex_plain_srt_ok | exact ex_plain_vtt_ok]. Qed.
 
